@@ -95,3 +95,101 @@ Example C03_example :
   let e := {| e_verb := t_of "retr"; e_arg := [100]; e_data := DNone |} in
   o_codes (snd (step [] gen_table w e)) = [t_of "503"] /\ w_log (fst (step [] gen_table w e)) = [].
 Proof. vm_compute. split; reflexivity. Qed.
+
+(* ====================================================================================================
+   Round 3: the login handlers around their suspension points, and transfers served after the command.
+   Model/LoginRace.v splits the programs of pass_ / user TRANSLATED from server.py (Gen/Handlers.v) at their
+   awaits; Proofs/LoginRace.v. *)
+From Verif Require Import Lib.HandlerFacts Model.HandlerProg Model.LoginRace Proofs.HandlerProg Proofs.LoginRace.
+From Verif Require Gen.Handlers.
+
+(* closed obligation on today's source: pass_ and user are the reference programs -- their ONLY suspension points are
+   `await authenticate(...)` (pass_) and `await notify_logout(...)`, `await get_user(...)` (user); pass_ is
+   "already logged in? 503 : authenticate ? (logged := True; 230) : 530".  A new await (e.g. a sleep before the
+   reply), a write after it, a changed probe: unclassified or different program, this breaks *)
+Theorem C03_login_handlers_are_reference :
+  prog_of Gen.Handlers.programs "pass_" = prog_of ref_programs "pass_"
+  /\ prog_of Gen.Handlers.programs "user" = prog_of ref_programs "user".
+Proof. exact gen_login_programs_reference. Qed.
+Print Assumptions C03_login_handlers_are_reference.
+
+(* FULL STATEMENT (for every user manager, pipelined commands included):
+     whatever is handled while pass_ / user are suspended in the user manager, a session is logged in only as a user
+     whose password it supplied after naming that user.
+   REFUTED on the faithful split model (finding F20; the harness replays both witnesses on the real server with a
+   MemoryUserManager subclass whose authenticate() / get_user() suspend): *)
+Theorem C03_pipelined_user_during_pass_refuted :
+  let w1 := user_cmd RU (t_of "alice") RW0 in
+  option_map (fun r => (s_user (w_s (fst (fst r))), s_logged (w_s (fst (fst r))), s_cwd (w_s (fst (fst r))), o_codes (snd (fst r))))
+    (suspended_pass RU no_self (prog_of Gen.Handlers.programs "pass_") (t_of "alicepw") (user_cmd RU (t_of "admin")) w1)
+  = Some (Some 1%nat, true, [t_of "adm"], [code "230"])
+  /\ authenticate RU 1 (t_of "alicepw") = false.
+Proof. exact pass_race_witness. Qed.
+Print Assumptions C03_pipelined_user_during_pass_refuted.
+
+Theorem C03_pipelined_user_during_user_refuted :
+  option_map (fun r => (s_user (w_s (fst (fst r))), s_logged (w_s (fst (fst r))), o_codes (snd (fst r))))
+    (suspended_user RU no_self (prog_of Gen.Handlers.programs "user") (t_of "admin") (user_cmd RU (t_of "bob")) RW0)
+  = Some (Some 1%nat, true, [code "331"]).
+Proof. exact user_race_witness. Qed.
+Print Assumptions C03_pipelined_user_during_user_refuted.
+
+(* CARVED (_partial): when nothing is handled at the await -- the shipped MemoryUserManager (its coroutines never
+   suspend), commands sent one at a time, or the candidate fix's per-connection lock around user()/pass_() -- the
+   suspended handlers ARE the sequential bodies, to which C03_step_login / C03_bad_pass_never_authorises /
+   C03_logged_implies_password_supplied apply *)
+Theorem C03_suspended_login_handlers_partial : forall users self arg d appe w,
+  (s_logged (w_s w) = false -> s_user (w_s w) <> None ->
+   suspended_pass users self (prog_of Gen.Handlers.programs "pass_") arg (fun x => x) w
+   = Some (body users self "pass_" arg d appe w))
+  /\ suspended_user users self (prog_of Gen.Handlers.programs "user") arg (fun x => x) w
+     = Some (body users self "user" arg d appe w).
+Proof.
+  intros users self arg d appe w.
+  rewrite (proj1 gen_login_programs_reference), (proj2 gen_login_programs_reference).
+  split; [intros L U; exact (suspended_pass_alone_is_body users self arg d appe w L U)
+         |exact (suspended_user_alone_is_body users self arg d appe w)].
+Qed.
+Print Assumptions C03_suspended_login_handlers_partial.
+
+(* and whatever IS handled at pass_'s await: a login it performs was earned by the password of the user pending when
+   the PASS was read -- the defect is exactly that the session's user may be another one by then *)
+Theorem C03_suspended_pass_authenticated_the_old_user : forall users self arg between w r,
+  suspended_pass users self (prog_of Gen.Handlers.programs "pass_") arg between w = Some r ->
+  s_logged (w_s (between w)) = false ->
+  s_logged (w_s (fst (fst r))) = true ->
+  exists i, s_user (w_s w) = Some i /\ authenticate users i arg = true
+            /\ s_user (w_s (fst (fst r))) = s_user (w_s (between w)).
+Proof.
+  intros users self arg between w r. rewrite (proj1 gen_login_programs_reference).
+  exact (suspended_pass_authenticated_the_old_user users self arg between w r).
+Qed.
+Print Assumptions C03_suspended_pass_authenticated_the_old_user.
+
+(* ---- a command between the 150 mark and the data connection ----
+   the worker LIST / MLSD / RETR / STOR schedule is fixed when the command is handled (path resolved under the login
+   and working directory of THAT moment) ... *)
+Theorem C03_scheduled_worker_fixed_at_command_time : forall users self arg d appe w,
+  scheduled users self (prog_of Gen.Handlers.programs "list") arg d appe w
+    = Some (w, worker_den "list_worker" [VReal (resolve (s_cwd (w_s w)) arg)] d)
+  /\ scheduled users self (prog_of Gen.Handlers.programs "mlsd") arg d appe w
+    = Some (w, worker_den "mlsd_worker" [VReal (resolve (s_cwd (w_s w)) arg)] d)
+  /\ scheduled users self (prog_of Gen.Handlers.programs "retr") arg d appe w
+    = Some (w, worker_den "retr_worker" [VReal (resolve (s_cwd (w_s w)) arg)] d)
+  /\ (is_dir (removelast (resolve (s_cwd (w_s w)) arg)) (w_fs w) = true ->
+      scheduled users self (prog_of Gen.Handlers.programs "stor") arg d appe w
+      = Some (log_call w "is_dir" (removelast (resolve (s_cwd (w_s w)) arg)),
+              worker_den "stor_worker" [VReal (resolve (s_cwd (w_s w)) arg); VText (if appe then t_of "ab" else t_of "wb")] d)).
+Proof. rewrite gen_programs. exact scheduled_worker_fixed_at_command_time. Qed.
+Print Assumptions C03_scheduled_worker_fixed_at_command_time.
+
+(* ... and what it serves later does not depend on the session of that later moment (who is identified, whether anybody
+   is logged in, the working directory): same tree and offset => same listing / bytes, same path handed to the backend.
+   (RFC 959: "any file transfer in progress is completed under the old access control parameters") *)
+Theorem C03_served_object_independent_of_later_session : forall wn p d k a b,
+  worker_den wn [VReal p] d = Some k -> same_store a b ->
+  snd (k a) = snd (k b)
+  /\ w_fs (fst (k a)) = w_fs (fst (k b))
+  /\ exists m, w_log (fst (k a)) = (w_log a ++ [(m, p)])%list /\ w_log (fst (k b)) = (w_log b ++ [(m, p)])%list.
+Proof. exact served_object_independent_of_later_session. Qed.
+Print Assumptions C03_served_object_independent_of_later_session.
